@@ -20,6 +20,102 @@ use sozu_command_lib::request::{read_initial_state, read_initial_state_from_file
 use sozu_command_lib::state::{ConfigState, StateError};
 use verif_harness::*;
 
+/// per-field value coverage of the generated requests: JSON path of the field inside the request
+/// -> distinct values seen (shortened). Filled by `run_impl`, written into the result file by `main`.
+static FIELD_COV: std::sync::Mutex<BTreeMap<String, BTreeSet<String>>> = std::sync::Mutex::new(BTreeMap::new());
+
+fn short(v: &serde_json::Value) -> String {
+    let t = v.to_string();
+    if t.len() <= 24 {
+        t
+    } else {
+        use std::hash::{Hash, Hasher};
+        let mut h = std::collections::hash_map::DefaultHasher::new();
+        t.hash(&mut h);
+        format!("{}..#{:08x}", t.chars().take(12).collect::<String>(), h.finish() as u32)
+    }
+}
+fn is_default(v: &serde_json::Value) -> bool {
+    use serde_json::Value::*;
+    match v {
+        Null => true,
+        Bool(b) => !*b,
+        Number(n) => n.as_f64() == Some(0.0),
+        String(s) => s.is_empty(),
+        Array(a) => a.is_empty(),
+        Object(o) => o.is_empty(),
+    }
+}
+fn cov_walk(path: &str, v: &serde_json::Value, out: &mut Vec<(String, String)>) {
+    use serde_json::Value::*;
+    let leaf_map = path.ends_with(".tags") || path.ends_with(".answers");
+    match v {
+        Object(o) if !leaf_map && !o.is_empty() => {
+            for (k, x) in o {
+                cov_walk(&format!("{path}.{k}"), x, out);
+            }
+        }
+        Array(a) if a.iter().any(|x| x.is_object()) => {
+            for x in a {
+                cov_walk(&format!("{path}[]"), x, out);
+            }
+        }
+        _ => out.push((path.to_string(), if is_default(v) { "default".into() } else { short(v) })),
+    }
+}
+fn record_coverage(req: &Request) {
+    let Ok(v) = serde_json::to_value(req) else { return };
+    let Some(rt) = v.get("request_type").and_then(|x| x.as_object()) else { return };
+    let mut leaves = vec![];
+    for (variant, body) in rt {
+        cov_walk(variant, body, &mut leaves);
+    }
+    let mut m = FIELD_COV.lock().unwrap();
+    for (p, val) in leaves {
+        let e = m.entry(p).or_default();
+        if e.len() < 12 {
+            e.insert(val);
+        }
+    }
+}
+/// fields that are not stored / re-emitted by ConfigState
+const COV_IGNORE: [&str; 6] = ["from_scm", "to_scm", "expired_at", "new_expired_at", "SAVE_STATE", "STATUS"];
+
+fn write_coverage(out: &str) {
+    let Ok(txt) = std::fs::read_to_string(out) else { return };
+    let Ok(mut res) = serde_json::from_str::<serde_json::Value>(&txt) else { return };
+    let m = FIELD_COV.lock().unwrap();
+    let mut table = serde_json::Map::new();
+    let mut gaps = vec![];
+    for (p, vals) in m.iter() {
+        // an optional sub-message / list that was absent is recorded as a leaf "default"; when it is
+        // present its fields are recorded instead
+        let has_children = m.keys().any(|q| q.starts_with(&format!("{p}.")) || q.starts_with(&format!("{p}[]")));
+        if has_children {
+            continue;
+        }
+        let nondef: Vec<&String> = vals.iter().filter(|v| *v != "default").collect();
+        let boolean = !nondef.is_empty() && nondef.iter().all(|v| *v == "true");
+        let need = if boolean { 1 } else { 2 };
+        table.insert(p.clone(), serde_json::json!({"distinct_non_default": nondef.len(), "values": vals}));
+        if nondef.len() < need && !COV_IGNORE.iter().any(|i| p.contains(i)) {
+            gaps.push(p.clone());
+        }
+    }
+    if let Some(d) = res.get_mut("distribution").and_then(|d| d.as_object_mut()) {
+        for (p, e) in table.iter() {
+            d.insert(format!("field:{p}"), e["distinct_non_default"].clone());
+        }
+        for g in &gaps {
+            d.insert(format!("fieldgap:{g}"), serde_json::json!(1));
+        }
+    }
+    res["extra"] = serde_json::json!({"field_coverage": table, "field_gaps": gaps});
+    println!("field coverage: {} request fields, {} with fewer than two distinct non-default values{}", table.len(), gaps.len(),
+             if gaps.is_empty() { String::new() } else { format!(": {}", gaps.join(", ")) });
+    let _ = std::fs::write(out, serde_json::to_string_pretty(&res).unwrap());
+}
+
 static PEMS: OnceLock<Pems> = OnceLock::new();
 fn pems() -> &'static Pems {
     PEMS.get_or_init(|| load_pems(&std::env::var("VERIF_REPO").unwrap_or_else(|_| "/repo".into())))
@@ -474,8 +570,8 @@ fn g_httpl(rng: &mut Rng, sh: &Shadow, https: bool) -> String {
         rng.below(3),
         *rng.pick(&[60u64, 5, 0]),
         *rng.pick(&[30u64, 7]),
-        3,
-        10,
+        *rng.pick(&[3u64, 4, 1]),
+        *rng.pick(&[10u64, 12, 2]),
         rng.below(2),
         g_answers(rng),
         alpn,
@@ -483,7 +579,7 @@ fn g_httpl(rng: &mut Rng, sh: &Shadow, https: bool) -> String {
         if https { g_opt(rng, 20, |r| r.below(2).to_string()) } else { "-".into() },
         if rng.chance(1, 3) { g_knobs(rng, 20, None) } else { KN.to_string() },
         g_opt(rng, 15, |r| sidw(*r.pick(&GOOD_SID[..]))),
-        rng.below(3)
+        rng.below(4)
     )
 }
 
@@ -528,22 +624,22 @@ fn g_patch(rng: &mut Rng, a: u64, https: bool, bad: u64) -> String {
 fn g_front(rng: &mut Rng, sh: &Shadow) -> String {
     format!(
         "{} {} {} {} {} {} {} {} {}",
-        g_opt(rng, 80, |r| r.below(3).to_string()),
+        g_opt(rng, 80, |r| r.below(4).to_string()),
         g_addr(rng, sh),
-        rng.below(2),
+        rng.below(4),
         if rng.chance(1, 25) { 7 } else { rng.below(3) },
-        rng.below(2),
-        g_opt(rng, 25, |r| r.below(2).to_string()),
+        rng.below(5),
+        g_opt(rng, 45, |r| r.below(6).to_string()),
         if rng.chance(1, 25) { 9 } else { rng.below(3) },
-        rng.below(3),
-        rng.below(3)
+        rng.below(4),
+        rng.below(4)
     )
 }
 
 fn g_cert(rng: &mut Rng) -> String {
     let pem = if rng.chance(1, 6) { 10 + rng.below(3) } else if rng.chance(1, 8) { 13 } else { rng.below(10) };
     let names = if rng.chance(1, 3) { dotted(&(0..1 + rng.below(2)).map(|_| rng.below(3)).collect::<Vec<_>>()) } else { "-".into() };
-    let rest = rng.below(3);
+    let rest = rng.below(4);
     let p = pems();
     let c = p.cert(pem, &parse_dotted(&names).unwrap(), rest);
     p.cert_words(&c).join(" ")
@@ -559,18 +655,18 @@ impl StateArea {
             if v.is_empty() { None } else { Some(*rng.pick(&v)) }
         };
         if k < 8 {
-            let id = rng.below(3);
+            let id = rng.below(5);
             let h = if bad { format!("i{}", rng.below(4)) } else { g_opt(rng, 30, |r| format!("v{}", r.below(3))) };
             if !bad { sh.clusters.insert(id); }
-            format!("addcluster {id} {h} {}", rng.below(4))
+            format!("addcluster {id} {h} {}", rng.below(5))
         } else if k < 11 {
-            let id = rng.below(3);
+            let id = rng.below(5);
             sh.clusters.remove(&id);
             format!("rmcluster {id}")
         } else if k < 15 {
-            format!("sethc {} {}", rng.below(3), if bad { format!("i{}", rng.below(4)) } else { format!("v{}", rng.below(3)) })
+            format!("sethc {} {}", rng.below(5), if bad { format!("i{}", rng.below(4)) } else { format!("v{}", rng.below(3)) })
         } else if k < 17 {
-            format!("rmhc {}", rng.below(3))
+            format!("rmhc {}", rng.below(5))
         } else if k < 23 {
             let https = rng.chance(1, 2);
             let l = g_httpl(rng, sh, https);
@@ -580,11 +676,13 @@ impl StateArea {
         } else if k < 26 {
             let a = g_addr(rng, sh);
             sh.listeners[2].insert(a % 16);
-            format!("addtcpl {a} {} {} 60 30 3 {}", g_opt(rng, 20, |r| r.below(20).to_string()), rng.below(2), rng.below(2))
+            format!("addtcpl {a} {} {} {} {} {} {}", g_opt(rng, 20, |r| r.below(20).to_string()), rng.below(2),
+                    *rng.pick(&[60u64, 5]), *rng.pick(&[30u64, 7]), *rng.pick(&[3u64, 1]), rng.below(2))
         } else if k < 29 {
             let a = g_addr(rng, sh);
             sh.listeners[3].insert(a % 16);
-            format!("addudpl {a} {} 30 30 1500 {} {}", g_opt(rng, 20, |r| r.below(20).to_string()), rng.below(3), rng.below(2))
+            format!("addudpl {a} {} {} {} {} {} {}", g_opt(rng, 20, |r| r.below(20).to_string()), *rng.pick(&[30u64, 5]),
+                    *rng.pick(&[30u64, 9]), *rng.pick(&[1500u64, 512, 9000]), rng.below(3), rng.below(2))
         } else if k < 33 {
             let t = if bad { 9 } else { rng.below(4) };
             let a = g_addr(rng, sh);
@@ -628,7 +726,7 @@ impl StateArea {
             format!("replcert {a} {oldw} {c}")
         } else if k < 70 {
             let udp = rng.chance(1, 3);
-            let (c, a, t) = (rng.below(3), g_addr(rng, sh), rng.below(3));
+            let (c, a, t) = (rng.below(4), g_addr(rng, sh), rng.below(4));
             sh.tfs.insert((udp, c, a % 16, t));
             format!("{} {c} {a} {t}", if udp { "addudpf" } else { "addtcpf" })
         } else if k < 73 {
@@ -641,11 +739,11 @@ impl StateArea {
                 format!("{} {} {} 0", if rng.chance(1, 2) { "rmudpf" } else { "rmtcpf" }, rng.below(3), g_addr(rng, sh))
             }
         } else if k < 81 {
-            let (c, b, a) = (rng.below(3), rng.below(3), g_addr(rng, sh));
+            let (c, b, a) = (rng.below(4), rng.below(4), g_addr(rng, sh));
             sh.backends.insert((c, b, a % 16));
             format!(
                 "addbackend {c} {b} {a} {} {} {}",
-                g_opt(rng, 30, |r| r.below(2).to_string()),
+                g_opt(rng, 30, |r| r.below(3).to_string()),
                 if rng.chance(1, 3) { format!("w{}", *rng.pick(&[0i64, 5, 100, -3])) } else { "-".into() },
                 g_opt(rng, 30, |r| r.below(2).to_string())
             )
@@ -656,7 +754,7 @@ impl StateArea {
                 sh.backends.remove(&x);
                 format!("rmbackend {} {} {}", x.0, x.1, x.2)
             } else {
-                format!("rmbackend {} {} {}", rng.below(3), rng.below(3), g_addr(rng, sh))
+                format!("rmbackend {} {} {}", rng.below(4), rng.below(4), g_addr(rng, sh))
             }
         } else if k < 93 {
             let https = rng.chance(3, 5);
@@ -669,11 +767,13 @@ impl StateArea {
         } else if k < 96 {
             let a = match pick_l(rng, sh, 2) { Some(a) if rng.chance(4, 5) => a, _ => g_addr(rng, sh) };
             format!("updtcpl {a} {} {} {} {} {}", g_opt(rng, 30, |r| r.below(20).to_string()), g_opt(rng, 40, |r| r.below(2).to_string()),
-                    g_opt(rng, 40, |_| "61".into()), g_opt(rng, 40, |_| "31".into()), g_opt(rng, 40, |_| "4".into()))
+                    g_opt(rng, 40, |r| r.pick(&[61u64, 6, 0]).to_string()), g_opt(rng, 40, |r| r.pick(&[31u64, 8]).to_string()),
+                    g_opt(rng, 40, |r| r.pick(&[4u64, 2]).to_string()))
         } else if k < 98 {
             let a = match pick_l(rng, sh, 3) { Some(a) if rng.chance(4, 5) => a, _ => g_addr(rng, sh) };
-            format!("updudpl {a} {} {} {} {} {}", g_opt(rng, 30, |r| r.below(20).to_string()), g_opt(rng, 40, |_| "31".into()),
-                    g_opt(rng, 40, |_| "32".into()), g_opt(rng, 40, |_| "9000".into()), g_opt(rng, 40, |r| r.below(5).to_string()))
+            format!("updudpl {a} {} {} {} {} {}", g_opt(rng, 30, |r| r.below(20).to_string()), g_opt(rng, 40, |r| r.pick(&[31u64, 6]).to_string()),
+                    g_opt(rng, 40, |r| r.pick(&[32u64, 7]).to_string()), g_opt(rng, 40, |r| r.pick(&[9000u64, 576]).to_string()),
+                    g_opt(rng, 40, |r| r.below(5).to_string()))
         } else if k < 99 {
             format!("other {}", rng.below(2))
         } else {
@@ -813,6 +913,10 @@ impl Area for StateArea {
                 }
                 v
             },
+            // a front whose method / hostname / path is not in canonical case: key and stored value must agree
+            s(&["new", "addhttpf 1 4 0 0 0 1 2 1 0", "replay", "rmhttpf 1 4 0 0 0 1 2 1 0", "replay"]),
+            s(&["new", "addhttpsf 1 4 2 2 2 3 2 0 1", "addhttpsf 1 4 2 2 2 2 2 0 1", "addhttpsf - 4 3 1 3 5 0 3 2", "replay",
+                "mark", "rmhttpsf 1 4 2 2 2 2 2 0 1", "diff"]),
             // listener change keeps activation
             vec!["new".into(), hl.clone(), "mark".into(), format!("updhttpsl 7 - - - 5 - - - - - - - {KN} - 0"), "diff".into(), "diffself".into(), "replay".into()],
         ]
@@ -980,6 +1084,7 @@ impl Area for StateArea {
                     if back != w.join(" ") {
                         r.oracle.push(("harness-codec".into(), format!("`{op}` prints back as `{back}`")));
                     }
+                    record_coverage(&req);
                     let before = cur.clone();
                     let res = cur.dispatch(&req);
                     if self.prop == "C07" {
@@ -1017,5 +1122,9 @@ fn main() {
     let args = parse_args();
     let prop = if args.prop.is_empty() { "C07".to_string() } else { args.prop.clone() };
     let _ = pems();
-    std::process::exit(run_area(&StateArea { prop }, &args));
+    let code = run_area(&StateArea { prop }, &args);
+    if !args.out.is_empty() && args.replay.is_none() {
+        write_coverage(&args.out);
+    }
+    std::process::exit(code);
 }
